@@ -21,6 +21,7 @@ REGISTRY = [
     ("gen_c06", "SlotFlags.v"),
     ("gen_c02", "FastPaths.v"),
     ("gen_c02b", "IndexPaths.v"),
+    ("gen_c11", "StrArms.v"),
 ]
 
 
